@@ -1,12 +1,494 @@
 package main
 
+// Replay of solver counterexamples against the real code: the model's input
+// values are turned into an in-package Go test that calls the real function,
+// injected with `go test -overlay` (the repository is not touched).
+
+import (
+	"encoding/json"
+	"fmt"
+	"go/types"
+	"math/big"
+	"os"
+	"os/exec"
+	"path/filepath"
+	"sort"
+	"strconv"
+	"strings"
+	"time"
+
+	"golang.org/x/tools/go/ssa"
+)
+
 type replayResult struct {
 	Reproduced bool   `json:"reproduced"`
 	Test       string `json:"test,omitempty"`
 	Output     string `json:"output,omitempty"`
 	Note       string `json:"note,omitempty"`
+	Cmd        string `json:"cmd,omitempty"`
 }
 
-func tryReplay(eng *Engine, t *funcTask, o *Obligation, model map[string]string, dir string) *replayResult {
-	return nil
+const replayBytes = 160 // leading bytes of each byte sequence requested from the model
+
+// describeInput registers the model terms needed to rebuild an input value.
+func (fx *FnExec) describeInput(st *State, name string, v Val, t types.Type, depth int) {
+	c := fx.c
+	add := func(n string, tm *Term) { fx.inputs = append(fx.inputs, namedTerm{n, tm}) }
+	defer func() {
+		if e := recover(); e != nil {
+			if _, ok := e.(oosError); !ok {
+				panic(e)
+			}
+		}
+	}()
+	switch x := v.(type) {
+	case *Term:
+		if x.Sort.IsArr() {
+			if at, ok := under(t).(*types.Array); ok && at.Len() <= replayBytes && x.Sort.Elem.IsBV() {
+				for i := int64(0); i < at.Len(); i++ {
+					add(fmt.Sprintf("%s[%d]", name, i), c.Select(x, fx.bv64(i)))
+				}
+			}
+			return
+		}
+		add(name, x)
+	case SliceV:
+		add(name+".len", x.Len)
+		add(name+".cap", x.Cap)
+		add(name+".isnil", c.Eq(x.Ref, fx.nilRef()))
+		et := under(t).(*types.Slice).Elem()
+		if b, ok := under(et).(*types.Basic); ok && b.Kind() == types.Uint8 {
+			arr := fx.elemArray(st, et, x.Ref)
+			for i := int64(0); i < replayBytes; i++ {
+				add(fmt.Sprintf("%s[%d]", name, i), c.Select(arr, c.BVBin("bvadd", x.Off, fx.bv64(i))))
+			}
+		}
+	case StrV:
+		add(name+".len", x.Len)
+		for i := int64(0); i < replayBytes; i++ {
+			add(fmt.Sprintf("%s[%d]", name, i), c.Select(x.Arr, c.BVBin("bvadd", x.Off, fx.bv64(i))))
+		}
+	case IfaceV:
+		add(name+".isnil", c.Eq(x.Tag, c.BVInt(0, 32)))
+	case StructV:
+		s := under(t).(*types.Struct)
+		for i, f := range x.F {
+			fx.describeInput(st, name+"."+s.Field(i).Name(), f, s.Field(i).Type(), depth)
+		}
+	case PtrV:
+		if x.Ref == nil {
+			return
+		}
+		add(name+".isnil", c.Eq(x.Ref, fx.nilRef()))
+		if depth <= 0 {
+			return
+		}
+		if x.Kind == PObj {
+			switch u := under(x.Elem).(type) {
+			case *types.Struct:
+				for i := 0; i < u.NumFields(); i++ {
+					ft := u.Field(i).Type()
+					var fv Val
+					if isObjT(ft) {
+						fv = PtrV{Kind: PObj, Ref: fx.subRef(x.Elem, i, x.Ref), Elem: ft}
+						fx.describeObj(st, name+"->"+u.Field(i).Name(), fv.(PtrV), depth-1)
+						continue
+					}
+					fv = fx.loadField(st, x.Elem, i, x.Ref)
+					fx.describeInput(st, name+"->"+u.Field(i).Name(), fv, ft, depth-1)
+				}
+			case *types.Array:
+				fx.describeObj(st, name+"->", x, depth)
+			}
+		}
+	}
 }
+
+func (fx *FnExec) describeObj(st *State, name string, p PtrV, depth int) {
+	c := fx.c
+	switch u := under(p.Elem).(type) {
+	case *types.Array:
+		if singleSort(u.Elem()) != nil && !isObjT(u.Elem()) && u.Len() <= replayBytes {
+			arr := fx.elemArray(st, u.Elem(), p.Ref)
+			for i := int64(0); i < u.Len(); i++ {
+				fx.inputs = append(fx.inputs, namedTerm{fmt.Sprintf("%s[%d]", name, i), c.Select(arr, fx.bv64(i))})
+			}
+		}
+	case *types.Struct:
+		for i := 0; i < u.NumFields(); i++ {
+			ft := u.Field(i).Type()
+			if isObjT(ft) {
+				fx.describeObj(st, name+"."+u.Field(i).Name(), PtrV{Kind: PObj, Ref: fx.subRef(p.Elem, i, p.Ref), Elem: ft}, depth)
+				continue
+			}
+			fx.describeInput(st, name+"."+u.Field(i).Name(), fx.loadField(st, p.Elem, i, p.Ref), ft, depth)
+		}
+	}
+}
+
+// ---- building Go source from a model
+
+type goBuilder struct {
+	pkg     *types.Package
+	model   map[string]string
+	imports map[string]string // path -> name
+	ok      bool
+}
+
+func (b *goBuilder) qual(p *types.Package) string {
+	if p == b.pkg {
+		return ""
+	}
+	b.imports[p.Path()] = p.Name()
+	return p.Name()
+}
+
+func (b *goBuilder) typeStr(t types.Type) string { return types.TypeString(t, b.qual) }
+
+func modelInt(s string) (*big.Int, bool) {
+	s = strings.TrimSpace(s)
+	if strings.HasPrefix(s, "#x") {
+		v, ok := new(big.Int).SetString(s[2:], 16)
+		return v, ok
+	}
+	if strings.HasPrefix(s, "#b") {
+		v, ok := new(big.Int).SetString(s[2:], 2)
+		return v, ok
+	}
+	if strings.HasPrefix(s, "(_ bv") {
+		f := strings.Fields(strings.Trim(s, "()"))
+		if len(f) >= 2 {
+			v, ok := new(big.Int).SetString(strings.TrimPrefix(f[1], "bv"), 10)
+			return v, ok
+		}
+	}
+	return nil, false
+}
+
+func (b *goBuilder) intLit(name string, t types.Type) string {
+	v, ok := modelInt(b.model[name])
+	if !ok {
+		return fmt.Sprintf("%s(0)", b.typeStr(t))
+	}
+	w, signed, _ := intWidth(t)
+	if signed && v.Bit(w-1) == 1 {
+		v = new(big.Int).Sub(v, new(big.Int).Lsh(big.NewInt(1), uint(w)))
+	}
+	return fmt.Sprintf("%s(%s)", b.typeStr(t), v.String())
+}
+
+func (b *goBuilder) lenOf(name string, max int64) int64 {
+	v, ok := modelInt(b.model[name])
+	if !ok {
+		return 0
+	}
+	if !v.IsInt64() || v.Int64() > max || v.Int64() < 0 {
+		b.ok = false // too large to materialise
+		return max
+	}
+	return v.Int64()
+}
+
+func (b *goBuilder) byteAt(name string, i int64) byte {
+	v, ok := modelInt(b.model[fmt.Sprintf("%s[%d]", name, i)])
+	if !ok {
+		return 0
+	}
+	return byte(v.Uint64())
+}
+
+func exported(n string) bool { return n != "" && n[0] >= 'A' && n[0] <= 'Z' }
+
+// expr builds a Go expression of type t from the model entries under name.
+func (b *goBuilder) expr(name string, t types.Type, depth int) string {
+	if isBoolT(t) {
+		if b.model[name] == "true" {
+			return "true"
+		}
+		return "false"
+	}
+	if _, _, ok := intWidth(t); ok && !isFloat(t) {
+		return b.intLit(name, t)
+	}
+	if isStringT(t) {
+		n := b.lenOf(name+".len", 1<<16)
+		var sb strings.Builder
+		for i := int64(0); i < n; i++ {
+			c := byte(0x61)
+			if i < replayBytes {
+				c = b.byteAt(name, i)
+			}
+			fmt.Fprintf(&sb, "\\x%02x", c)
+		}
+		s := "\"" + sb.String() + "\""
+		if tn := b.typeStr(t); tn != "string" {
+			return tn + "(" + s + ")"
+		}
+		return s
+	}
+	switch u := under(t).(type) {
+	case *types.Slice:
+		if b.model[name+".isnil"] == "true" {
+			return "nil"
+		}
+		if eb, ok := under(u.Elem()).(*types.Basic); ok && eb.Kind() == types.Uint8 {
+			n := b.lenOf(name+".len", 1<<20)
+			cp := b.lenOf(name+".cap", 1<<21)
+			if cp < n {
+				cp = n
+			}
+			var parts []string
+			last := int64(-1)
+			for i := int64(0); i < n && i < replayBytes; i++ {
+				if b.byteAt(name, i) != 0 {
+					last = i
+				}
+			}
+			for i := int64(0); i <= last; i++ {
+				parts = append(parts, fmt.Sprintf("%d: 0x%02x", i, b.byteAt(name, i)))
+			}
+			return fmt.Sprintf("func() %s { s := make(%s, %d, %d); for i, v := range map[int]byte{%s} { s[i] = v }; return s }()", b.typeStr(t), b.typeStr(t), n, cp, strings.Join(parts, ", "))
+		}
+		return "nil"
+	case *types.Array:
+		if eb, ok := under(u.Elem()).(*types.Basic); ok && eb.Kind() == types.Uint8 && u.Len() <= replayBytes {
+			var parts []string
+			for i := int64(0); i < u.Len(); i++ {
+				parts = append(parts, fmt.Sprintf("0x%02x", b.byteAt(name, i)))
+			}
+			return fmt.Sprintf("%s{%s}", b.typeStr(t), strings.Join(parts, ", "))
+		}
+		return fmt.Sprintf("%s{}", b.typeStr(t))
+	case *types.Struct:
+		return b.structLit(name, ".", t, u, depth)
+	case *types.Pointer:
+		if b.model[name+".isnil"] == "true" || depth <= 0 {
+			if depth <= 0 && b.model[name+".isnil"] != "true" {
+				if _, isS := under(u.Elem()).(*types.Struct); isS {
+					return "new(" + b.typeStr(u.Elem()) + ")"
+				}
+			}
+			return "nil"
+		}
+		switch eu := under(u.Elem()).(type) {
+		case *types.Struct:
+			return "&" + b.structLit(name, "->", u.Elem(), eu, depth-1)
+		case *types.Array:
+			if eb, ok := under(eu.Elem()).(*types.Basic); ok && eb.Kind() == types.Uint8 && eu.Len() <= replayBytes {
+				var parts []string
+				for i := int64(0); i < eu.Len(); i++ {
+					parts = append(parts, fmt.Sprintf("0x%02x", b.byteAt(name+"->", i)))
+				}
+				return fmt.Sprintf("&%s{%s}", b.typeStr(u.Elem()), strings.Join(parts, ", "))
+			}
+		}
+		return "new(" + b.typeStr(u.Elem()) + ")"
+	}
+	return "*new(" + b.typeStr(t) + ")"
+}
+
+func (b *goBuilder) structLit(name, sep string, t types.Type, u *types.Struct, depth int) string {
+	var parts []string
+	samePkg := true
+	if n := namedOf(t); n != nil && n.Obj().Pkg() != nil && n.Obj().Pkg() != b.pkg {
+		samePkg = false
+	}
+	for i := 0; i < u.NumFields(); i++ {
+		f := u.Field(i)
+		if !samePkg && !exported(f.Name()) {
+			continue
+		}
+		ft := f.Type()
+		switch under(ft).(type) {
+		case *types.Interface, *types.Map, *types.Chan, *types.Signature:
+			continue
+		}
+		if n := namedOf(ft); n != nil && n.Obj().Pkg() != nil {
+			switch n.Obj().Pkg().Path() {
+			case "sync", "sync/atomic", "time", "bytes":
+				continue
+			}
+		}
+		fname := name + sep + f.Name()
+		if isObjT(ft) && sep == "->" {
+			fname = name + "->" + f.Name()
+		}
+		parts = append(parts, fmt.Sprintf("%s: %s", f.Name(), b.exprField(fname, ft, depth)))
+	}
+	return fmt.Sprintf("%s{%s}", b.typeStr(t), strings.Join(parts, ", "))
+}
+
+func (b *goBuilder) exprField(name string, t types.Type, depth int) string {
+	// object-typed fields were described with "." separators below the field name
+	return b.expr(name, t, depth)
+}
+
+// tryReplay builds and runs the replay test for a failed obligation with a model.
+func tryReplay(eng *Engine, t *funcTask, o *Obligation, rawModel map[string]string, dir string) *replayResult {
+	fn := t.fn
+	if fn.Pkg == nil || fn.Parent() != nil {
+		return &replayResult{Note: "no replay: closure or synthetic function"}
+	}
+	if strings.Contains(o.Name, "/inl") {
+		// the failing site is inside an inlined callee; the replay still calls the outer function
+	}
+	model := map[string]string{}
+	for k, v := range rawModel {
+		if n, ok := o.GVKeys[k]; ok {
+			model[n] = v
+		}
+		if n, ok := o.GVKeys[strings.Trim(k, "|")]; ok {
+			model[n] = v
+		}
+	}
+	fc := eng.db.Funcs[t.key]
+	panicKind := isSafetyKind(o.Kind)
+	var replayExpr string
+	if fc != nil {
+		replayExpr = fc.ReplayExpr
+	}
+	if !panicKind && replayExpr == "" {
+		return &replayResult{Note: "no replay template for " + o.Kind + " obligations of this function; the model is recorded"}
+	}
+	b := &goBuilder{pkg: fn.Pkg.Pkg, model: model, imports: map[string]string{"testing": "testing", "fmt": "fmt"}, ok: true}
+	var decls []string
+	var args []string
+	recvExpr := ""
+	for i, p := range fn.Params {
+		e := b.expr("in."+p.Name(), p.Type(), 2)
+		vn := fmt.Sprintf("a%d", i)
+		if p.Name() != "" && p.Name() != "_" {
+			vn = "p_" + p.Name()
+		}
+		decls = append(decls, fmt.Sprintf("\tvar %s %s = %s", vn, b.typeStr(p.Type()), e))
+		if i == 0 && fn.Signature.Recv() != nil {
+			recvExpr = vn
+		} else {
+			args = append(args, vn)
+		}
+	}
+	if !b.ok {
+		return &replayResult{Note: "no replay: the model needs an input too large to materialise; model recorded"}
+	}
+	if fn.Signature.Variadic() && len(args) > 0 {
+		args[len(args)-1] += "..."
+	}
+	call := ""
+	if recvExpr != "" {
+		call = fmt.Sprintf("%s.%s(%s)", recvExpr, fn.Name(), strings.Join(args, ", "))
+	} else {
+		call = fmt.Sprintf("%s(%s)", fn.Name(), strings.Join(args, ", "))
+	}
+	nres := fn.Signature.Results().Len()
+	var resNames []string
+	for i := 0; i < nres; i++ {
+		n := fmt.Sprintf("r%d", i)
+		if fc != nil && i < len(fc.Results) {
+			n = "r_" + fc.Results[i]
+		}
+		resNames = append(resNames, n)
+	}
+	var body strings.Builder
+	for _, d := range decls {
+		body.WriteString(d + "\n")
+	}
+	for i, p := range fn.Params {
+		vn := fmt.Sprintf("a%d", i)
+		if p.Name() != "" && p.Name() != "_" {
+			vn = "p_" + p.Name()
+		}
+		fmt.Fprintf(&body, "\t_ = %s\n", vn)
+	}
+	if nres > 0 {
+		fmt.Fprintf(&body, "\t%s := %s\n", strings.Join(resNames, ", "), call)
+		for _, n := range resNames {
+			fmt.Fprintf(&body, "\t_ = %s\n", n)
+		}
+	} else {
+		fmt.Fprintf(&body, "\t%s\n", call)
+	}
+	body.WriteString("\tfmt.Println(\"HOPVC-REPLAY: RETURNED\")\n")
+	if !panicKind && replayExpr != "" {
+		fmt.Fprintf(&body, "\tif !(%s) {\n\t\tfmt.Println(\"HOPVC-REPLAY: POSTCONDITION-VIOLATED\")\n\t} else {\n\t\tfmt.Println(\"HOPVC-REPLAY: POSTCONDITION-HOLDS\")\n\t}\n", replayExpr)
+	}
+	var imps []string
+	for p, n := range b.imports {
+		imps = append(imps, fmt.Sprintf("\t%s %q", n, p))
+	}
+	sort.Strings(imps)
+	helper := ""
+	if fc != nil && fc.ReplayHelp != "" {
+		if data, err := os.ReadFile(filepath.Join(verifDir(), "replay", fc.ReplayHelp)); err == nil {
+			helper = string(data)
+		}
+	}
+	src := fmt.Sprintf(`package %s
+
+// Generated by hopvc from the solver model of obligation %s.
+import (
+%s
+)
+
+func TestHopvcReplay(t *testing.T) {
+	defer func() {
+		if r := recover(); r != nil {
+			fmt.Printf("HOPVC-REPLAY: PANIC %%v\n", r)
+		}
+	}()
+%s}
+
+%s
+`, fn.Pkg.Pkg.Name(), o.Name, strings.Join(imps, "\n"), body.String(), helper)
+	testFile := filepath.Join(dir, sanitize(o.Name)+"_test.go")
+	os.WriteFile(testFile, []byte(src), 0o644)
+	// overlay
+	pkgDir := ""
+	for _, p := range eng.pkgs {
+		if p.Types == fn.Pkg.Pkg && len(p.GoFiles) > 0 {
+			pkgDir = filepath.Dir(p.GoFiles[0])
+		}
+	}
+	if pkgDir == "" {
+		return &replayResult{Test: testFile, Note: "no replay: package directory not found"}
+	}
+	ov := map[string]map[string]string{"Replace": {filepath.Join(pkgDir, "zz_hopvc_replay_test.go"): testFile}}
+	ovFile := filepath.Join(dir, sanitize(o.Name)+".overlay.json")
+	data, _ := json.Marshal(ov)
+	os.WriteFile(ovFile, data, 0o644)
+	cmdline := fmt.Sprintf("cd %s && GOFLAGS=-mod=mod GOPROXY=off go test -overlay %s -vet=off -count=1 -timeout 60s -run '^TestHopvcReplay$' -v .", pkgDir, ovFile)
+	cmd := exec.Command("bash", "-c", "ulimit -v 8000000; "+cmdline)
+	cmd.Env = append(os.Environ(), "GOFLAGS=-mod=mod", "GOPROXY=off")
+	done := make(chan struct{})
+	var out []byte
+	go func() {
+		out, _ = cmd.CombinedOutput()
+		close(done)
+	}()
+	select {
+	case <-done:
+	case <-time.After(150 * time.Second):
+		if cmd.Process != nil {
+			cmd.Process.Kill()
+		}
+		return &replayResult{Test: testFile, Cmd: cmdline, Note: "replay timed out"}
+	}
+	os.Remove(ovFile)
+	so := string(out)
+	rr := &replayResult{Test: rel(verifDir(), testFile), Cmd: cmdline, Output: truncate(so, 4000)}
+	switch {
+	case panicKind && strings.Contains(so, "HOPVC-REPLAY: PANIC"):
+		rr.Reproduced = true
+		rr.Note = "the real function panics on the solver's input"
+	case !panicKind && strings.Contains(so, "POSTCONDITION-VIOLATED"):
+		rr.Reproduced = true
+		rr.Note = "the real function violates the postcondition on the solver's input"
+	case strings.Contains(so, "HOPVC-REPLAY: RETURNED"):
+		rr.Note = "the real function returned normally on the reconstructed input (the model may depend on state the replay cannot build)"
+	default:
+		rr.Note = "replay did not run to completion (build error or unsupported input shape)"
+	}
+	return rr
+}
+
+var _ = strconv.Itoa
+var _ *ssa.Function
